@@ -3,6 +3,7 @@ import warnings
 from collections.abc import Iterable
 
 from .vector import Vector
+from .alias_tracker import _ALIAS_TRACKER
 
 from .naming import _sanitize_user_name
 
@@ -436,7 +437,9 @@ class Table(Vector):
 				cols = list(self._underlying)
 				value._name = self._underlying[col_idx_indexed]._name  # Preserve original name
 				cols[col_idx_indexed] = value
+				_ALIAS_TRACKER.unregister(self, id(self._underlying))
 				object.__setattr__(self, '_underlying', tuple(cols))
+				_ALIAS_TRACKER.register(self, id(self._underlying))
 				object.__setattr__(self, '_column_map', self._build_column_map())
 				return
 			
@@ -460,7 +463,9 @@ class Table(Vector):
 				cols = list(self._underlying)
 				value._name = self._underlying[col_idx]._name  # Preserve original name
 				cols[col_idx] = value
+				_ALIAS_TRACKER.unregister(self, id(self._underlying))
 				object.__setattr__(self, '_underlying', tuple(cols))
+				_ALIAS_TRACKER.register(self, id(self._underlying))
 				
 				# Rebuild column map to reflect any structural changes
 				object.__setattr__(self, '_column_map', self._build_column_map())
